@@ -2,6 +2,7 @@ import DatamonVerif.Drv.C22
 import DatamonVerif.Drv.C21
 import DatamonVerif.Drv.Cafs
 import DatamonVerif.Drv.C04
+import DatamonVerif.Drv.C06
 import DatamonVerif.Drv.C17
 import DatamonVerif.Drv.C19
 import DatamonVerif.Drv.C20
@@ -23,6 +24,7 @@ def main (args : List String) : IO UInt32 := do
   | ["model", "C02"] => loop CafsDrv.handler inp out CafsDrv.handler.init; return 0
   | ["model", "C03"] => loop CafsDrv.handler inp out CafsDrv.handler.init; return 0
   | ["model", "C04"] => loop C04.handler inp out C04.handler.init; return 0
+  | ["model", "C06"] => loop C06.handler inp out C06.handler.init; return 0
   | ["model", "C21"] => loop C21.handler inp out C21.handler.init; return 0
   | ["model", "C22"] => loop C22.handler inp out C22.handler.init; return 0
   | ["model", "C17"] => loop C17.handler inp out C17.handler.init; return 0
